@@ -16,13 +16,13 @@ THOROUGH_S = 420
 BATCH = 8
 RULE = ('one evaluation = one seeded simulated run of 2-4 contenders (threads sharing one cache object / own objects in one process / '
         'separate simulated processes; Cache or FanoutCache) each looping acquire -> critical section (seam yields + virtual sleep) -> '
-        'release on a Lock, RLock (nested 1-3 deep), BoundedSemaphore (value 1-3) or a barrier-wrapped function, with optional '
+        'release on a Lock, RLock (nested 1-3 deep), BoundedSemaphore (value 1-3) or barrier-wrapped functions (two different functions under one barrier name, in some runs next to the primitive itself on that name), with optional '
         'release-without-acquire attempts; each contender uses explicit acquire/release or a with statement, and in seeded rounds the critical section (or the barrier-wrapped function) raises; a witness independent of the cache counts holders on every entry; the run must finish, the exception of the section must come out unchanged and the stored state must say free at the end '
         '(every waiter eventually acquires); non-trivial = at least one context switch inside a critical section or a contended '
         'acquire; distinct = SHA-256 of the seam event log')
 ASSUMPTIONS = ['polling acquire loops (1 ms virtual sleeps) are run with critical sections of at most a few virtual milliseconds',
                'lock keys carry no expiry in this check']
-PROBES = ('contended_acquire', 'nested_rlock', 'bad_release_refused', 'lock_wait', 'barrier_calls', 'with_statement', 'cs_raised')
+PROBES = ('contended_acquire', 'nested_rlock', 'bad_release_refused', 'lock_wait', 'barrier_calls', 'with_statement', 'cs_raised', 'barrier_mixed_with_primitive')
 TECHNIQUE = 'deterministic simulation: seeded schedules of contenders with virtual-time polling; holder-count witness invariant checked at every critical-section entry; bounded-progress check'
 LEVEL_TEXT = ('seeded exploration of contender interleavings at seam granularity (and source lines for shared objects) with a witness '
               'invariant (holders <= 1, <= value for the semaphore, re-entrancy only by the owner) evaluated during the run, plus '
@@ -50,6 +50,9 @@ def gen_case(seed, tier):
     }
     # how each contender uses the primitive (explicit acquire/release or a with statement), and in which of its rounds the
     # critical section raises: the primitive must be released exactly once on that path too
+    # barrier: contenders call two DIFFERENT functions wrapped under one barrier name, and (in some runs) the last contender
+    # uses the primitive itself on that name - all of them are one exclusion group
+    cfg['barrier_mix'] = rng.random() < 0.4
     cfg['style'] = [rng.choice(('explicit', 'with')) for _ in range(n)]
     cfg['raises'] = [[rng.random() < 0.2 for _ in range(cfg['iters'])] for _ in range(n)]
     if cfg['topology'] == 'shared':
@@ -119,14 +122,13 @@ def run_case(case):
 
         barrier_fn = {}
 
-        def make_barrier(cache):
+        def make_barrier(cache, which=0):
             factory = getattr(dc, cfg['lock_factory'])
             if cfg['lock_factory'] == 'BoundedSemaphore':
                 def lf(c, key, expire=None, tag=None):
                     return dc.BoundedSemaphore(c, key, value=cfg['value'], expire=expire, tag=tag)
                 factory = lf
 
-            @dc.barrier(cache, factory, name='the-barrier')
             def work(name, boom=False):
                 enter(name)
                 critical(name)
@@ -135,7 +137,10 @@ def run_case(case):
                 if boom:
                     raise CsError(name)
                 return name
-            return work
+            if cfg.get('barrier_mix') is not None:
+                work.__module__, work.__qualname__ = 'jobs', 'work_%d' % (which % 2)
+                work.__name__ = work.__qualname__
+            return dc.barrier(cache, factory, name='the-barrier')(work)
 
         # fork(): every child gets its own copy of the object graph as it was in the parent.  Simulated with a pickle
         # round trip of the primitive built in the harness process (a Cache pickles to its directory, timeout and disk).
@@ -150,8 +155,22 @@ def run_case(case):
             name = 'c%d' % i
 
             def fn():
+                if kind == 'barrier' and cfg.get('barrier_mix') and i == cfg['n'] - 1:
+                    # the primitive itself, on the barrier's name
+                    factory = cfg['lock_factory']
+                    prim = (dc.BoundedSemaphore(cache, 'the-barrier', value=cfg['value']) if factory == 'BoundedSemaphore'
+                            else getattr(dc, factory)(cache, 'the-barrier'))
+                    for it in range(cfg['iters']):
+                        if cfg['think'][i]:
+                            sim.sleep(cfg['think'][i])
+                        with prim:
+                            enter(name)
+                            critical(name)
+                            leave(name)
+                        probes['barrier_mixed_with_primitive'] = 1
+                    return True
                 if kind == 'barrier':
-                    work = make_barrier(cache)
+                    work = make_barrier(cache, i)
                     for it in range(cfg['iters']):
                         if cfg['think'][i]:
                             sim.sleep(cfg['think'][i])
